@@ -30,4 +30,5 @@ C16 empty-file-link-with-commit-error c16/link-returned-with-error@BuildUnixFSFi
 C17 race-cachedLength-shardCache c17/data-race@hamt.
 C05 node-reifier-double-wrap-overfetch c05/file/over-fetch
 C20 node-reifier-preload-noop c20/block-set-mismatch/dir
+C12 unmeasurable-child-skipped-as-empty c12/file/eof-instead-of-error
 TABLE
